@@ -328,7 +328,7 @@ def run(ctx):
     # EOF inside a quote => Err
     def brole(f, bb, o):
         o = o.strip()
-        if o.k == "bin" and o.a == "Eq" and any(c.get("v") == 0 for c in o.consts()) and (any(c.endswith("Read::read") for c in o.callees()) or any(x.k == "var" and ws.local_ty(x.a["local"]) == "usize" and any(d_[1] == "assign" and any(cc.endswith("Read::read") for cc in prim._origin_of_def(ws, d_, 8, {x.a["local"]}).callees()) for d_ in prim.local_defs(ws).get(x.a["local"], [])) for x in o.walk())):
+        if o.k == "bin" and o.a == "Eq" and any(c.get("v") == 0 for c in o.consts()) and (any(c.endswith("Read::read") for c in o.callees()) or any(x.k == "var" and (ws.local_ty(x.a["local"]) == "usize" or ws.local_ty(x.a["local"]).startswith("std::result::Result<usize")) and any((d_[1] == "assign" and any(cc.endswith("Read::read") for cc in prim._origin_of_def(ws, d_, 8, {x.a["local"]}).callees())) or (d_[1] == "call" and (d_[2].callee or "").endswith("Read::read")) for d_ in prim.local_defs(ws).get(x.a["local"], [])) for x in o.walk())):
             return "eof"
         if o.k == "discr":
             inner = o.kids[0]
